@@ -196,7 +196,7 @@ func ruleB3(c *Ctx) {
 		isReply := false
 		for _, src := range valueSources(subj.Root, iff, 0) {
 			if call, ok := src.(*ssa.Call); ok {
-				if g := m.callee(call.Common()); g != nil && recvNamed(g) != nil && recvNamed(g).Obj().Name() == "pluginType" {
+				if g := m.callee(call.Common()); g != nil && recvNamed(g) != nil && tname(recvNamed(g).Obj()) == "pluginType" {
 					isReply = true
 				}
 			}
